@@ -37,12 +37,12 @@ def key_tie(ctx, findings, n, npairs, own_property=True, relevant=None):
         ctx.distinct_nontrivial += int(d.group(1)) if d else 0
     else:
         ctx.broken.append('correspondence key: modeld missing')
-    ctx.evaluations += s['requests'] + 2 * s['pairs']
+    ctx.evaluations += s['requests'] + 2 * s['pairs'] + sum(s.get('populations', {}).values())
     ctx.rules.append('h_key: structured requests (14 languages, 0-4 args incl. empty and non-UTF-8, 0-2 extra digests, 0-4 env pairs with and without allow-listed names, '
                      'preprocessor-like payloads; one third are preprocessor-level keys on real input files) + pair families of the quantifier (single change, split/merge/shift, '
-                     'move between lists, all 14x14 language pairs, tag/payload and extras/payload shifts); distinct_nontrivial = number of distinct keys compared byte-exactly')
+                     'move between lists, all 14x14 language pairs, tag/payload and extras/payload shifts) + populations (every placement of 1-3 separators in one input path, every split of one string into 1-3 arguments, name/value variants of every allow-listed variable: pairwise distinct keys required); distinct_nontrivial = number of distinct keys compared byte-exactly')
     ctx.samples += s['samples']
-    ctx.cov.update(requests=s['requests'], pairs=s['pairs'], disabled_keys=s['none_keys'], pair_families=s['families'])
+    ctx.cov.update(requests=s['requests'], pairs=s['pairs'], disabled_keys=s['none_keys'], pair_families=s['families'], populations=s.get('populations', {}))
     def to_fail(f): return dict(f)
     fails = s['monitor_failures']
     if not own_property:
